@@ -306,8 +306,19 @@ def lattice(tier, rot):
                 for u in ("zero", "P", "L", "PL"):
                     for com in (None, ["linear", 1], ["angular", 3]):
                         add(_case(e, mol, 300.0, 0, [], com, u, rot))
+        # seeding of the thermostat noise when the velocities come from the user
+        for mol in ("H2O", "CH4+H2O"):
+            for seed in (0, 1):
+                for w in [[]] + _words(1):
+                    add(_case("langevin", mol, 300.0, seed, w, None, "PL", rot))
     else:
         engines = ["bomd", "langevin", "xl", "xl_damped", "ksa", "ksa_damped"]
+        for e in ("langevin", "xl_damped", "ksa_damped"):
+            for mol in ("H2O", "CH4+H2O", "HF"):
+                for seed in (0, 1, 12345):
+                    for w in [[]] + _words(1):
+                        for u in ("PL", "zero"):
+                            add(_case(e, mol, 300.0, seed, w, None, u, rot))
         for e in engines:
             for mol in MOLS:
                 for com in COMS:
@@ -410,7 +421,19 @@ def evaluate(chk, cases, verbose=False):
             for j in range(i + 1, len(seeds)):
                 ci, ri = base[seeds[i]]
                 cj, rj = base[seeds[j]]
-                if ci["temp"] <= 0 or ci["user"] is not None:
+                if ci["temp"] <= 0:
+                    continue
+                if ci["user"] is not None:
+                    # user-supplied velocities: the seed still has to drive the thermostat noise of stochastic engines
+                    if ci["engine"] not in ("langevin", "xl_damped", "ksa_damped"):
+                        continue
+                    ncmp["seed_pairs"] += 1
+                    ri["compared"] += 1
+                    rj["compared"] += 1
+                    same = ri["digest"] == rj["digest"]
+                    rj["rel"].append(f"seed{seeds[i]}-noise-" + ("same" if same else "differs"))
+                    if same:
+                        rj["problems"].append(("seed_no_effect", -1, 0.0, f"seeds {seeds[i]} and {seeds[j]} give identical trajectories of a thermostatted run started from user-supplied velocities", {"other_seed": seeds[i]}))
                     continue
                 ncmp["seed_pairs"] += 1
                 ri["compared"] += 1
